@@ -97,6 +97,17 @@ def o1_startup_decoder(chk, prog, n):
     chk.end(ob)
 
 
+def codec_callers(prog, which):
+    """Functions of the (non-test) crate that decode a client message into the struct `which` -- read off the call sites in the MIR of this build."""
+    pat = re.compile(r'(?:TryInto<(?:messages::)?%s>>::try_into|<(?:messages::)?%s as (?:std::convert::)?TryFrom<)' % (which, which))
+    out = set()
+    for n, f in prog.funcs.items():
+        for b in f.blocks.values():
+            if b[1] and pat.search(b[1]):
+                out.add(n)
+    return out
+
+
 def o1_decoder(chk, prog, which, n):
     name = 'O1-%s-%dbytes' % (which, n)
     ob = chk.begin(name, '%s on a framed client message (as delivered by read_message) with %d arbitrary body bytes: the call terminates within the '
@@ -110,6 +121,7 @@ def o1_decoder(chk, prog, which, n):
             'infer_shard_from_bind': 'B', 'try_execute_command': None, 'QueryRouter::parse': None}[which]
     outcomes = {'ok': 0, 'err': 0, 'panic': 0}
     panics = set()
+    reachable = bool(codec_callers(prog, which)) if which in ('Parse', 'Bind', 'Describe', 'Close') else True
 
     def harness(ip_):
         msg, ln = sym_msg(ip_, code, n)
@@ -179,6 +191,11 @@ def o1_decoder(chk, prog, which, n):
                 return
             raise
         ob.nontrivial += 1
+        if out is not None and len(out) >= 5 and which in ('Parse', 'Bind', 'Describe', 'Close') and not reachable:
+            # nothing in this build decodes a client message with this codec (e.g. Bind: only get_name / rename are used): what its
+            # re-encoding would emit is not something a client can cause -- termination is still checked above
+            ob.extra['re_encoding_unreachable'] = True
+            return
         if out is not None and len(out) >= 5:
             declared = z3.Concat(*[b.z() for b in out[1:5]])
             m = ip_.model_for(declared != z3.BitVecVal(len(out) - 1, 32))
